@@ -97,13 +97,21 @@ class Tol:
 
 
 class EV:
-    """Value array `v` and absolute error bound `e` (same broadcast shape)."""
+    """Value array `v`, absolute error bound `e` and magnitude `m` (same broadcast shape).
 
-    __slots__ = ("v", "e")
+    `m` is the value the expression would have with every leaf replaced by its absolute value (sum of |terms| for sums,
+    product of magnitudes for products).  Rounding errors are charged at `m`, not at `|v|`: the compiler under test may
+    associate sums differently and may distribute products over sums (argument factorisation does), and then its intermediate
+    values are as large as the terms even where the mathematical value cancels (e.g. sym(grad(u))[1,0] * curl(v)[1] for RT1:
+    both factors vanish identically, the expanded double sum only cancels to rounding).
+    """
 
-    def __init__(self, v, e):
+    __slots__ = ("v", "e", "m")
+
+    def __init__(self, v, e, m=None):
         self.v = v
         self.e = e
+        self.m = np.abs(v) if m is None else m
 
 
 def _arr(x):
@@ -134,11 +142,15 @@ class Interp:
     # arithmetic
     def add(self, a, b):
         v = a.v + b.v
-        return EV(v, a.e + b.e + self.u * np.abs(v))
+        # charged at the magnitude of the operands, not of the (possibly cancelling) result: the kernel may associate a
+        # sum differently, and then its intermediate values are as large as the operands (see DESIGN.md, Corrections)
+        m = a.m + b.m
+        return EV(v, a.e + b.e + self.u * m, m)
 
     def mul(self, a, b):
         v = a.v * b.v
-        return EV(v, a.e * np.abs(b.v) + np.abs(a.v) * b.e + a.e * b.e + self.u * np.abs(v))
+        m = a.m * b.m
+        return EV(v, a.e * b.m + a.m * b.e + a.e * b.e + self.u * m, m)
 
     def div(self, a, b):
         with np.errstate(all="ignore"):
@@ -146,8 +158,9 @@ class Interp:
             ab = np.abs(b.v)
             if np.any(ab <= self.tol.margin * b.e):
                 raise Unstable("division by a value within its error of zero")
-            e = a.e / ab + np.abs(a.v) * b.e / (ab * ab) + self.u * np.abs(v)
-        return EV(v, e)
+            m = a.m / ab
+            e = a.e / ab + a.m * b.e / (ab * ab) + self.u * m
+        return EV(v, e, m)
 
     def func(self, a, f, df, ulps=4.0):
         with np.errstate(all="ignore"):
@@ -409,8 +422,9 @@ def evaluate(expr, ctx: Ctx, tol: Tol, comp=()) -> EV:
             tv = it.table(vals)  # (P, n)
             v = tv.v @ w
             # a dot product of n terms accumulated in working precision: worst case n*u*sum|terms| in any order
-            e = tv.e @ np.abs(w) + n * it.u * (np.abs(tv.v) @ np.abs(w))
-            return EV(pts(v), pts(e))
+            mag = np.abs(tv.v) @ np.abs(w)
+            e = tv.e @ np.abs(w) + n * it.u * mag
+            return EV(pts(v), pts(e), pts(mag))
         if isinstance(t, Constant):
             fc = int(np.ravel_multi_index(comp, t.ufl_shape)) if t.ufl_shape else 0
             return it.data(np.full((P, 1, 1), ctx.c[t][fc]))
@@ -428,8 +442,9 @@ def evaluate(expr, ctx: Ctx, tol: Tol, comp=()) -> EV:
             T = tabulate(cel, X, len(dd))[basix.index(*counts)][:, :, 0]  # (P, nodes)
             xs = np.asarray(ctx.x[r])[:, i]
             v = T @ xs
-            e = it.u * (np.abs(T) @ np.abs(xs)) * (T.shape[1] + 1.0)
-            return EV(pts(v), pts(e))
+            mag = np.abs(T) @ np.abs(xs)
+            e = it.u * mag * (T.shape[1] + 1.0)
+            return EV(pts(v), pts(e), pts(mag))
         if isinstance(t, QuadratureWeight):
             return it.data(pts(ctx.weights))
         if isinstance(t, (ScalarValue,)):
@@ -568,7 +583,11 @@ def evaluate(expr, ctx: Ctx, tol: Tol, comp=()) -> EV:
             if isinstance(ops[1], ScalarValue) and float(np.real(ops[1]._value)) == int(np.real(ops[1]._value)):
                 p = int(np.real(ops[1]._value))
                 if p >= 0:
-                    return it.func(a, lambda x: x**p, lambda x: p * x ** (p - 1) if p else 0 * x, ulps=2.0 * max(p, 1))
+                    r = it.func(a, lambda x: x**p, lambda x: p * x ** (p - 1) if p else 0 * x, ulps=2.0 * max(p, 1))
+                    if p >= 2:  # may be evaluated as a repeated product of a (possibly cancelling) sum
+                        mp = a.m**p
+                        r = EV(r.v, r.e + p * a.e * a.m ** (p - 1) + 2.0 * p * it.u * mp, mp)
+                    return r
                 if np.any(np.abs(a.v) <= tol.margin * a.e):
                     raise Unstable("negative power of a value within its error of zero")
                 return it.func(a, lambda x: x ** float(p), lambda x: p * x ** float(p - 1), ulps=2.0 * abs(p) + 2)
@@ -586,16 +605,16 @@ def evaluate(expr, ctx: Ctx, tol: Tol, comp=()) -> EV:
             return EV(v, da * a.e + db * b.e + 8 * it.u * np.abs(v))
         if isinstance(e, Abs):
             a = ev(ops[0], (), env)
-            return EV(np.abs(a.v), a.e + it.u * np.abs(a.v))
+            return EV(np.abs(a.v), a.e + it.u * np.abs(a.v), a.m)
         if isinstance(e, Conj):
             a = ev(ops[0], comp, env)
-            return EV(np.conj(a.v), a.e)
+            return EV(np.conj(a.v), a.e, a.m)
         if isinstance(e, Real):
             a = ev(ops[0], comp, env)
-            return EV(np.real(a.v) + 0.0, a.e)
+            return EV(np.real(a.v) + 0.0, a.e, a.m)
         if isinstance(e, Imag):
             a = ev(ops[0], comp, env)
-            return EV(np.imag(a.v) + 0.0, a.e)
+            return EV(np.imag(a.v) + 0.0, a.e, a.m)
         if isinstance(e, MathFunction):
             a = ev(ops[0], (), env)
             if e._name not in _FUNCS:
@@ -643,7 +662,7 @@ def evaluate(expr, ctx: Ctx, tol: Tol, comp=()) -> EV:
             a, b = ev(ops[0], (), env), ev(ops[1], (), env)
             av, bv = np.real(a.v), np.real(b.v)
             v = np.minimum(av, bv) if isinstance(e, MinValue) else np.maximum(av, bv)
-            return EV(v + 0.0, np.maximum(a.e, b.e))
+            return EV(v + 0.0, np.maximum(a.e, b.e), np.maximum(a.m, b.m))
         if isinstance(e, ufl.classes.Sign) if hasattr(ufl.classes, "Sign") else False:
             a = ev(ops[0], (), env)
             if np.any(np.abs(a.v) <= tol.margin * a.e):
@@ -652,7 +671,7 @@ def evaluate(expr, ctx: Ctx, tol: Tol, comp=()) -> EV:
         if isinstance(e, Conditional):
             c = cond(ops[0], env)
             a, b = ev(ops[1], comp, env), ev(ops[2], comp, env)
-            return EV(np.where(c, a.v, b.v), np.where(c, a.e, b.e))
+            return EV(np.where(c, a.v, b.v), np.where(c, a.e, b.e), np.where(c, a.m, b.m))
         raise Unsupported(f"operator {type(e).__name__}")
 
     out = ev(expr, tuple(comp), {})
